@@ -137,6 +137,7 @@ MCAddTagOps ==
                          <<"P3", "n", "x">>, <<"P3", "#s", "y">>}
      [] Scenario = 2 -> {<<"W1", "#s", "y">>, <<"W1", "n", "x">>, <<"W1", "@t", "y">>,
                          <<"W1", "n", "y">>,     \* the base's own value again
+                         <<"W1", "@t", "x">>,    \* an @-key is indexed by key alone: the value changes, the token does not
                          <<"R1", "#s", "y">>, <<"R1", "n", "x">>,
                          <<"C1", "#s", "x">>, <<"C1", "n", "y">>, <<"P4", "n", "x">>}
      [] Scenario = 5 -> {<<"P0", "#s", "y">>, <<"P0", "n", "x">>}
